@@ -32,7 +32,12 @@ def _alarm(signum, frame):  # pragma: no cover
     raise CaseTimeout()
 
 
-def worker_init(x64: bool, repo: str) -> None:
+def worker_init(x64, repo: str) -> None:
+    """x64: False, True, or 'late' = 64-bit mode switched on with jax.config.update only AFTER every furax module has been
+    imported (anything a module computed at import time saw the 32-bit mode)."""
+    late = x64 == 'late'
+    if late:
+        x64 = False
     os.environ['JAX_ENABLE_X64'] = '1' if x64 else '0'
     os.environ['JAX_PLATFORMS'] = 'cpu'
     src = os.path.join(repo, 'src')
@@ -43,6 +48,7 @@ def worker_init(x64: bool, repo: str) -> None:
 
     warnings.filterwarnings('ignore', message='JAX is not using 64-bit')
     warnings.filterwarnings('ignore', message='Explicitly requested dtype')
+    warnings.filterwarnings('ignore', message='JAX is not using 64-bit precision')
     import jax  # noqa: F401
 
     jax.config.update('jax_enable_x64', bool(x64))
@@ -51,6 +57,16 @@ def worker_init(x64: bool, repo: str) -> None:
     got = os.path.realpath(os.path.dirname(os.path.dirname(furax.__file__)))
     if got != os.path.realpath(src):
         raise HarnessError(f'furax imported from {got}, expected {src}')
+    if late:
+        import pkgutil
+
+        for m in pkgutil.walk_packages(furax.__path__, 'furax.'):
+            try:
+                importlib.import_module(m.name)
+            except ImportError:   # optional third-party stacks (toast)
+                pass
+        os.environ['JAX_ENABLE_X64'] = '1'
+        jax.config.update('jax_enable_x64', True)
 
 
 def run_shard(target: str, phase: str, cases: list, ctx: dict) -> dict:
@@ -143,7 +159,7 @@ def run_phase(pools: Pools, phase: dict, ctx: dict, seed: int, log=print) -> dic
     random.Random(seed).shuffle(order)
     chunk = max(1, int(phase.get('chunk') or max(1, n // (pools.jobs * 6) or 1)))
     shards = [[cases[i] for i in order[k : k + chunk]] for k in range(0, n, chunk)]
-    pool = pools.get(bool(phase.get('x64', False)))
+    pool = pools.get('late' if phase.get('x64') == 'late' else bool(phase.get('x64', False)))
     merged: dict = {}
     t0 = time.time()
     futs = [pool.submit(run_shard, phase['target'], phase['name'], s, ctx) for s in shards]
@@ -159,7 +175,7 @@ def run_phase(pools: Pools, phase: dict, ctx: dict, seed: int, log=print) -> dic
             f'phase {phase["name"]}: executed {merged.get("n")} cases of {n} declared - not exhaustive'
         )
     log(
-        f'[phase {phase["name"]}] x64={int(bool(phase.get("x64")))} cases={n} shards={len(shards)} '
+        f'[phase {phase["name"]}] x64={phase.get("x64") if phase.get("x64") == "late" else int(bool(phase.get("x64")))} cases={n} shards={len(shards)} '
         f'wall={time.time() - t0:.1f}s cpu={merged.get("cpu_s", 0):.1f}s'
     )
     return merged
